@@ -54,7 +54,20 @@ const (
 	ECtxAware = NumErrKinds + 1
 	// ETemporary: the error implements Temporary() bool { return true } (a "transient" error as net errors do)
 	ETemporary = NumErrKinds + 2
+	// EUncomparable: the error is a struct VALUE with a slice field (comparing two of them with == panics; errors.Is
+	// must be used, which guards against that); matched with errors.As + its ID field
+	EUncomparable = NumErrKinds + 3
+	// EJoined: errors.Join(other, sentinel) — the sentinel sits in a multi-error tree, not in a linear chain
+	EJoined = NumErrKinds + 4
 )
+
+// UncompErr is an error whose dynamic type is not comparable.
+type UncompErr struct {
+	ID   string
+	Tags []string
+}
+
+func (e UncompErr) Error() string { return "uncomparable error " + e.ID }
 
 // TempErr is a transient-looking error.
 type TempErr struct{ ID string }
@@ -346,6 +359,12 @@ func (x *Exec) mkErr(kind int, id string) error {
 	case ETemporary:
 		sentinel = &TempErr{ID: id}
 		ret = sentinel
+	case EUncomparable:
+		sentinel = UncompErr{ID: id, Tags: []string{"a"}}
+		ret = sentinel
+	case EJoined:
+		sentinel = errors.New("sentinel " + id)
+		ret = errors.Join(errors.New("unrelated failure"), sentinel)
 	case ECtxAware:
 		sentinel = errors.New("sentinel " + id)
 		ret = sentinel
@@ -382,6 +401,9 @@ func (x *Exec) MatchErr(err error) string {
 		if ce, isC := s.(*CustomErr); isC {
 			var got *CustomErr
 			ok = errors.As(err, &got) && got == ce && errors.Is(err, s)
+		} else if ue, isU := s.(UncompErr); isU {
+			var got UncompErr
+			ok = errors.As(err, &got) && got.ID == ue.ID
 		} else {
 			ok = errors.Is(err, s)
 		}
